@@ -74,12 +74,13 @@ type Depth struct {
 	Exh3, Max3 int    // all triples while m-MinLimit <= Exh3; Max2/Max3: 0 = m+6, 1 = 2m+4, 2 = 3m
 	Win        [5]int // half-width of the window around each threshold, per number of units (index 1..4)
 	Pos3, Pos4 bool   // put the near-threshold unit at every position (else rotate)
+	Wide3      bool   // 3 units: both companions from the full threshold list (else one from the short list)
 }
 
 // QuickDepth / ThoroughDepth are the two tiers.
 var (
-	QuickDepth    = Depth{Exh1: 24, Exh2: 14, Max2: 1, Exh3: 4, Max3: 0, Win: [5]int{0, 8, 8, 2, 1}}
-	ThoroughDepth = Depth{Exh1: 24, Exh2: 60, Max2: 2, Exh3: 20, Max3: 1, Win: [5]int{0, 8, 8, 8, 3}, Pos3: true, Pos4: true}
+	QuickDepth    = Depth{Exh1: 24, Exh2: 10, Max2: 1, Exh3: 3, Max3: 0, Win: [5]int{0, 8, 8, 2, 1}}
+	ThoroughDepth = Depth{Exh1: 24, Exh2: 60, Max2: 2, Exh3: 20, Max3: 1, Win: [5]int{0, 8, 8, 8, 3}, Pos3: true, Pos4: true, Wide3: true}
 )
 
 func span(kind, m int) int {
@@ -202,9 +203,13 @@ func (f *Format) Sweep(p Params, m int, d Depth, emit func(sizes []int)) {
 		}
 	}
 	if ucap >= 3 {
+		t3 := t0s
+		if d.Wide3 {
+			t3 = t0
+		}
 		for _, a := range near(d.Win[3]) {
 			for _, b := range t0 {
-				for _, c := range t0 {
+				for _, c := range t3 {
 					v := [3]int{b, c, a}
 					for k := 0; k < 3; k++ {
 						if d.Pos3 || k == rot%3 {
